@@ -799,7 +799,16 @@ delete_return_value(ostream &out, int indent_level,
     output_unref(out, indent_level, remap, return_expr);
 
   } else if (remap->_return_value_needs_management) {
-    // We should just delete it directly.
+    // We should just delete it directly.  That is, unless the class does not
+    // give us access to its destructor, in which case there is nothing that
+    // we can do about the object.
+    CPPType *type = remap->_return_type->get_new_type();
+    type = TypeManager::unwrap(TypeManager::resolve_type(type, remap->_cppscope));
+    CPPStructType *struct_type = type->as_struct_type();
+    if (struct_type != nullptr && !struct_type->is_incomplete() &&
+        !struct_type->is_destructible()) {
+      return;
+    }
     indent(out, indent_level) << "delete " << return_expr << ";\n";
   }
 }
